@@ -719,6 +719,16 @@ func (t *tread) handle(cs *connState) message {
 	data := cs.readBufPool.Get().(*[]byte)
 	// Retain a reference to the full length of the buffer.
 	dataBuf := (*data)
+
+	// The reply (size[4] type[1] tag[2] count[4] data[count]) must fit in the
+	// negotiated message size, which is the size of dataBuf: a larger request
+	// gets a short read.
+	count := t.Count
+	if limit := uint32(len(dataBuf)); limit < headerLength+4 {
+		count = 0
+	} else if count > limit-(headerLength+4) {
+		count = limit - (headerLength + 4)
+	}
 	if err := ref.safelyRead(func() (err error) {
 		switch ref.pendingXattr.op {
 		case xattrNone:
@@ -732,7 +742,7 @@ func (t *tread) handle(cs *connState) message {
 				return linux.EPERM
 			}
 
-			n, err = ref.file.ReadAt(dataBuf[:t.Count], int64(t.Offset))
+			n, err = ref.file.ReadAt(dataBuf[:count], int64(t.Offset))
 			return err
 
 		case xattrWalk:
@@ -751,11 +761,11 @@ func (t *tread) handle(cs *connState) message {
 				return linux.EINVAL
 			}
 
-			if t.Offset+uint64(t.Count) > uint64(len(ref.pendingXattr.buf)) {
+			if t.Offset+uint64(count) > uint64(len(ref.pendingXattr.buf)) {
 				return linux.EINVAL
 			}
 
-			n = copy(dataBuf[:t.Count], ref.pendingXattr.buf[t.Offset:])
+			n = copy(dataBuf[:count], ref.pendingXattr.buf[t.Offset:])
 			return nil
 		default:
 			return linux.EINVAL
